@@ -100,7 +100,7 @@ Lemma h_step_inv st op :
   (exists tail, h_buf (fst (h_step st op)) = h_buf st ++ tail).
 Proof.
   intros [Hl Hc] Hop. pose proof (len_nonneg (h_buf st)) as Hn.
-  destruct op as [mem size | | k mem size | k count | k]; cbn [hop_ok] in Hop.
+  destruct op as [mem size | | kc | k mem size | k count | k]; cbn [hop_ok] in Hop.
   - destruct Hop as (Hs & Hsum & Hm). cbn [h_step].
     assert (E : exists tail, bw_write (h_buf st) mem size = Some (h_buf st ++ tail) /\ len tail = size).
     { destruct mem as [bs|].
@@ -111,6 +111,11 @@ Proof.
     eapply Forall_impl; [|exact Hc]. cbv beta. intros; lia.
   - cbn [h_step fst snd h_buf h_curs]. split; [|split; [discriminate | exists []; now rewrite app_nil_r]].
     split; cbn [h_buf h_curs]; [exact Hl|]. apply Forall_app. split; [exact Hc | constructor; [lia | constructor]].
+  - cbn [h_step]. destruct (nth_error (h_curs st) kc) as [c|] eqn:Hk;
+      [|cbn [fst snd]; split; [now split | split; [discriminate | exists []; now rewrite app_nil_r]]].
+    cbn [fst snd h_buf h_curs]. split; [|split; [discriminate | exists []; now rewrite app_nil_r]].
+    split; cbn [h_buf h_curs]; [exact Hl|]. apply Forall_app. split; [exact Hc|].
+    constructor; [|constructor]. rewrite Forall_forall in Hc. exact (Hc c (nth_error_In _ _ Hk)).
   - cbn [h_step]. destruct (nth_error (h_curs st) k) as [c|] eqn:Hk;
       [|cbn [fst snd]; split; [now split | split; [discriminate | exists []; now rewrite app_nil_r]]].
     rewrite Forall_forall in Hc. assert (Hcc := Hc c (nth_error_In _ _ Hk)).
@@ -165,4 +170,30 @@ Proof.
     destruct (h_step st op) as [st' o]. cbn [fst snd] in *.
     destruct (IH st' Hinv' Hok) as [Hinv'' Hno]. destruct (h_trace st' ops) as [st'' os]. cbn [fst snd] in *.
     split; [exact Hinv''|]. intros [E|I]; [congruence | contradiction].
+Qed.
+
+(* readers are independent: a copy starts at the cursor of its original; what one reader does never
+   moves another reader's cursor *)
+Lemma nth_set_nth_other l k j z : j <> k -> nth_error (set_nth l k z) j = nth_error l j.
+Proof.
+  revert k j; induction l as [|x l IH]; intros [|k] [|j] H; simpl; try reflexivity; try congruence.
+  apply IH. congruence.
+Qed.
+
+Lemma reader_copy_and_independence st k c :
+  nth_error (h_curs st) k = Some c ->
+  (let st' := fst (h_step st (HCopy k)) in
+   h_buf st' = h_buf st /\ nth_error (h_curs st') (length (h_curs st)) = Some c /\ nth_error (h_curs st') k = Some c) /\
+  (forall op j, j <> k ->
+     match op with HRead k' _ _ | HView k' _ | HEnd k' => k' = k | _ => False end ->
+     nth_error (h_curs (fst (h_step st op))) j = nth_error (h_curs st) j).
+Proof.
+  intro Hk. split.
+  - cbv zeta. cbn [h_step]. rewrite Hk. cbn [fst h_buf h_curs]. split; [reflexivity|]. split.
+    + rewrite nth_error_app2 by lia. now rewrite Nat.sub_diag.
+    + rewrite nth_error_app1; [exact Hk|]. apply nth_error_Some. congruence.
+  - intros op j Hj Hop. destruct op as [| | |k' m sz|k' cnt|k']; try contradiction; subst k'; cbn [h_step]; rewrite Hk.
+    + destruct (rd_read (h_reader st c) m sz); cbn [fst h_curs]; try reflexivity. now apply nth_set_nth_other.
+    + destruct (rd_view (h_reader st c) cnt) as [| |[off sz] r']; cbn [fst h_curs]; try reflexivity. now apply nth_set_nth_other.
+    + reflexivity.
 Qed.
